@@ -3,6 +3,7 @@ import JwtProofs.Base64
 import JwtProofs.Decode
 import Props.C12
 import Props.CodecRoundTrip
+import Props.CodecText
 /-!
 # C03 — Encode then Decode is lossless for every claim kind
 
